@@ -107,6 +107,15 @@ class VCGen:
 
     def cond(self, e, st):
         """returns z3 Bool for an `if`/`while` test"""
+        if isinstance(e, ast.UnaryOp) and isinstance(e.op, ast.Not):
+            return z3.Not(self.cond(e.operand, st))
+        if isinstance(e, ast.BoolOp):
+            cs = [self.cond(v, st) for v in e.values]
+            return z3.And(*cs) if isinstance(e.op, ast.And) else z3.Or(*cs)
+        if hasattr(self.spec, "custom_cond"):
+            r = self.spec.custom_cond(self, st, e)
+            if r is not None:
+                return r
         if isinstance(e, ast.Name) and st.v.get(e.id, ("",))[0] == "list":
             return st.v[e.id][2] > 0
         if isinstance(e, ast.Compare) and len(e.ops) == 1:
